@@ -203,6 +203,9 @@ def gen_project(rng: random.Random, idx: int) -> Dict[str, Any]:
             mods = rng.sample(MOD_NAMES, rng.randint(1, 4))
             if rng.random() < 0.15:
                 mods.append('__main__')
+            if rng.random() < 0.15:
+                mods.append(rn)                      # pkg/pkg.py
+                proj.features.add('root_name_repeated')
             sub = None
             if rng.random() < 0.3:
                 sub = rng.choice(['sub', '_private', 'hiddenpkg'])
@@ -319,6 +322,11 @@ def corpus() -> List[Dict[str, Any]]:
                            '    def meth(self):\n        """See L{target} and L{Base.target}."""\n'
                            'class Sub(Base):\n    """s"""\n    def meth(self):\n        pass\n'},
          'roots': ['m.py'], 'args': []},
+        {'id': 'corpus-root-name-repeated',      # like tqdm/tqdm.py: a submodule and a class named as the single root
+         'files': {'foo/__init__.py': '"""root L{foo.foo.helper}"""\ndef top():\n    """t"""\nTOPVAR = 1\n"""v"""\n',
+                   'foo/foo.py': '"""inner module L{foo.top}"""\ndef helper():\n    """h"""\n'
+                                 'class foo:\n    """inner class"""\n    def m(self):\n        """m"""\n'},
+         'roots': ['foo'], 'args': []},
         {'id': 'corpus-non-ascii',
          'files': {'m.py': '"""m doc L{Cl\u00e9}"""\nclass Cl\u00e9:\n    """c"""\n    def m\u00e9(self): "x"\ndef f\u00e9(): "y"\n'},
          'roots': ['m.py'], 'args': []},
@@ -445,12 +453,16 @@ def diff_views(mv: Dict[str, Any], cv: Dict[str, Any]) -> Optional[Dict[str, Any
     if mv['anchors'] != cv['anchors']:
         d['anchors'] = {'model_only': sorted(set(mv['anchors']) - set(cv['anchors']))[:10],
                         'impl_only': sorted(set(cv['anchors']) - set(mv['anchors']))[:10]}
-    # class signature: the model lists the links to the base OBJECTS; generic arguments (`Base[T]`) are cross
-    # references resolved by the annotation linker: impl may have more (they are checked by the crawler oracle)
-    extra_sig = {e for e in cv['entries'] - mv['entries'] if e[1] == P['class_signature']}
-    if mv['entries'] != cv['entries'] - extra_sig:
-        cv = dict(cv)
-        cv['entries'] = cv['entries'] - extra_sig
+    # class signature: the model lists links to the base OBJECTS, but the real links go through the annotation
+    # linker (link_to(expandName(base.fullName()))): generic arguments (`Base[T]`) add links, and for a re-exported class
+    # or a package that contains a module of its own name the name no longer expands to the base and the link is
+    # dropped (C04/C07 territory).  Not comparable set-for-set: these hrefs are checked by the crawler oracle only.
+    sig = P['class_signature']
+    mv = dict(mv)
+    cv = dict(cv)
+    mv['entries'] = {e for e in mv['entries'] if e[1] != sig}
+    cv['entries'] = {e for e in cv['entries'] if e[1] != sig}
+    if mv['entries'] != cv['entries']:
         def show(s: Set[Any]) -> List[Any]:
             return sorted([[e[0], PNAME.get(e[1], e[1]), e[2], e[3], e[4]] for e in s], key=str)[:12]
         d['entries'] = {'model_only': show(mv['entries'] - cv['entries']), 'impl_only': show(cv['entries'] - mv['entries'])}
